@@ -1,7 +1,7 @@
 (** C12 — Windows hold exactly the events of their time span; aggregates follow.
     Statements only; proofs in Proofs/WindowProofs.v.  Model of the repaired TimeWindow::record. *)
 From RRE Require Model.StreamAlpha Proofs.StreamAlphaProofs.
-From RRE Require Import Base.Sx Base.Float Model.Window Proofs.WindowProofs.
+From RRE Require Import Base.Sx Base.Float Model.Window Proofs.WindowProofs Proofs.WindowPlacementProofs.
 Open Scope N_scope.
 
 (** After each record into a continuously sliding window no retained event is older than the
@@ -44,6 +44,35 @@ Theorem C12_tumbling_one_window_per_interval : forall dur cap ws e,
   (forall s, In s (map w_start (group_add dur cap ws e)) <-> In s (map w_start ws) \/ s = (ets e / dur) * dur).
 Proof. exact group_add_starts. Qed.
 Print Assumptions C12_tumbling_one_window_per_interval.
+
+(** Tumbling windowing of a whole stream (WindowedStream::new), for every event sequence in any arrival order, every
+    positive duration and every cap: each window of the result is the window [start, start + dur) of an aligned interval
+    that received an event and holds exactly the events of that interval, in arrival order, cut to the newest [cap];
+    two windows never share a start; the aligned interval of every offered event has its window. *)
+Theorem C12_tumbling_windows_exact : forall dur cap es, 0 < dur ->
+  (forall w, In w (windowed dur cap es) ->
+     w_end w = w_start w + dur /\
+     w_events w = cap_events cap (filter (fun x => (ets x / dur) * dur =? w_start w) es) /\
+     exists e, In e es /\ (ets e / dur) * dur = w_start w) /\
+  (forall w1 w2, In w1 (windowed dur cap es) -> In w2 (windowed dur cap es) -> w_start w1 = w_start w2 -> w1 = w2) /\
+  (forall e, In e es -> exists w, In w (windowed dur cap es) /\ w_start w = (ets e / dur) * dur).
+Proof. intros dur cap es Hd. exact (windowed_exact dur cap Hd es). Qed.
+Print Assumptions C12_tumbling_windows_exact.
+
+(** each event in exactly one window (the retention cap not reached): an offered event lies in a window of the result
+    iff that is the window of the aligned interval containing its timestamp - and by the previous theorem that window
+    exists and is unique. *)
+Theorem C12_tumbling_exactly_one_window : forall dur cap es e w, 0 < dur ->
+  (length es <= N.to_nat cap)%nat -> In e es -> In w (windowed dur cap es) ->
+  (In e (w_events w) <-> w_start w = (ets e / dur) * dur).
+Proof. intros dur cap es e w Hd. exact (windowed_exactly_one dur cap Hd es e w). Qed.
+Print Assumptions C12_tumbling_exactly_one_window.
+
+Example C12_tumbling_example :
+  let ev i t := {| eid := i; ets := t; efld := FMissing |} in
+  map (fun w => (w_start w, map eid (w_events w))) (windowed 10 2 [ev 1 25; ev 2 3; ev 3 21; ev 4 29; ev 5 9; ev 6 20])
+  = [(0, [2; 5]); (20, [4; 6])].
+Proof. vm_compute. reflexivity. Qed.
 
 (** StreamAlphaNode (Model/StreamAlpha.v, sliding and tumbling windows under the clock; names qualified).
     An event is accepted exactly when it comes from the node's stream, has its type and lies in the window
